@@ -26,6 +26,9 @@ ops:
   division / fixed-precision formatting model (`fdiv`, `fmtFixed`; divisor and precision regenerated);
 * `needset <percentRaw> <b> | <c>` — the machine's `needOracleSet` op (reversed schedule): float accumulation over the merged
   power map, division, `%.8f`, comparison with `min(percent, 1)`; answers `<rendered>:<true|false>` or `err:<kind>`;
+* `checksorted <addr:missed,…> | <addr:missed,…>` — the bonded validators in store order and in the order the staking
+  precompile's `validatorList(missed)` returned them; answers `sorted-permutation` when the output meets the contract of a
+  sort for the regenerated comparator (`meetsSortContract missedLe`), else `not-a-permutation` / `inversion`;
 * `oracleset <addr:power,…>` — answers the addresses in the order `NewOracleSet` stores the members (`sortMembers`: the
   regenerated comparator program of `BridgeValidators.Less`, interpreted).
 -/
@@ -113,9 +116,23 @@ def step (st : Unit) (line : String) : Unit × String :=
       | .err e => (st, "err:" ++ e)
       | _ => (st, "bad-op")
     | _, _, _ => (st, "bad-op")
+  | ["checksorted", inp, "|", outp] =>
+    match parsePairs inp, parsePairs outp with
+    | some i, some o =>
+      let toNS := fun (e : String × Nat) => (⟨e.2, e.1⟩ : NS)
+      if !(o.map toNS).isPerm (i.map toNS) then (st, "not-a-permutation")
+      else if meetsSortContract missedLe (i.map toNS) (o.map toNS) then (st, "sorted-permutation") else (st, "inversion")
+    | _, _ => (st, "bad-op")
   | ["oracleset", ms] =>
     match parsePairs ms with
-    | some l => (st, showList ((sortMembers (l.map fun e => ⟨e.2, e.1⟩)).map (·.str)))
+    | some l =>
+      -- the generic interpreter (records over the fields of BridgeValidator) and the two-field one must agree
+      let viaRec := (sortMemberRecs (l.map fun e => memberRec e.2 e.1)).map fun r =>
+        match fieldOf r "ExternalAddress" with
+        | some (.s a) => a
+        | _ => "?"
+      let viaNS := (sortMembers (l.map fun e => ⟨e.2, e.1⟩)).map (·.str)
+      if viaRec == viaNS then (st, showList viaRec) else (st, "model-disagreement")
     | none => (st, "bad-op")
   | ["powerdiff", b, "|", c] =>
     match parsePairs b, parsePairs c with
